@@ -4,14 +4,15 @@
 -/
 import Ptk.Gen.C10Display
 import Ptk.Model.C10Diff
+import Ptk.Model.C10Out
 namespace Ptk.C10
 open Ptk.Py
 
 def genTable : Table := Gen.C10.displayMappings
-def genWc : Char → Int := Gen.C10.wcwidth
+def genWc : CP → Int := Gen.C10.wcwidth
 
 /-- `_CHAR_CACHE[" ", Transparent]`, the default character of a fresh `Screen()` -/
-def genD0 : Cell := mkCell genTable genWc [' '] "[transparent]".toList
+def genD0 : Cell := mkCell genTable genWc [32] "[transparent]".toList
 
 /-- the emitter strings of the real `Vt100_Output` -/
 def genEmit : Emit := {
@@ -22,5 +23,16 @@ def genEmit : Emit := {
   upPre := Gen.C10.cursorUpPre, upSuf := Gen.C10.cursorUpSuf,
   fwdPre := Gen.C10.cursorFwdPre, fwdSuf := Gen.C10.cursorFwdSuf,
   backPre := Gen.C10.cursorBackPre, backSuf := Gen.C10.cursorBackSuf }
+
+/-- the strings of the other emitters of the real `Vt100_Output` -/
+def genEmit2 : Emit2 := {
+  eraseScreen := Gen.C10.eraseScreen, enterAlt := Gen.C10.enterAltScreen, quitAlt := Gen.C10.quitAltScreen,
+  enableMouse := Gen.C10.enableMouse, disableMouse := Gen.C10.disableMouse,
+  enableBP := Gen.C10.enableBracketedPaste, disableBP := Gen.C10.disableBracketedPaste,
+  resetCursorKeyMode := Gen.C10.resetCursorKeyMode, askCpr := Gen.C10.askCpr, bell := Gen.C10.bell,
+  down1 := Gen.C10.cursorDown1, downPre := Gen.C10.cursorDownPre, downSuf := Gen.C10.cursorDownSuf,
+  gotoPre := Gen.C10.gotoPre, gotoMid := Gen.C10.gotoMid, gotoSuf := Gen.C10.gotoSuf,
+  shapes := Gen.C10.cursorShapes, shapeMarks := Gen.C10.cursorShapeMarks, resetShape := Gen.C10.resetCursorShape,
+  titlePre := Gen.C10.titlePre, titleSuf := Gen.C10.titleSuf, titleRemoved := Gen.C10.titleRemoved }
 
 end Ptk.C10
